@@ -15,34 +15,41 @@ META = {
                  "state-machine invariant of the lazy caches for query-order independence, orbit argument for the rotational "
                  "sort) + translator-regenerated guards / record layout / slot indices / walk steps / border predicate + "
                  "kernel-checked correspondence batches on generated oriented manifold surfaces and random query scripts",
-    "level_text": "Machine-checked Coq theorems (closed under the global context, unbounded: all oriented manifold polygon "
-                  "surfaces, all query scripts, sorting on/off) about an executable model of PolyLine/SurfaceMesh._Connectivity and "
-                  "the SurfaceMesh border API whose lazy guards, assigned/cleared attributes, half-edge record layout, slot indices, "
-                  "index formulas, walk steps and border predicate are regenerated from surface.py/linear.py on every run. FULL: "
-                  "query-order independence for every script incl. clear()/clear_boundary_data() (every reachable cache state answers "
-                  "every query with its pure answer; a fresh mesh answers what a used one answers); the table computation never "
-                  "raises; next/previous/opposite corner, corner<->half-edge, face on either side of an edge (+local indices), "
-                  "opposite face, corner of a vertex in a face, first corner of a face, edge and face identifiers equal direct "
-                  "inspection of the face list; with sorting on vertex_to_corners is a rotationally ordered closed ring (interior "
-                  "vertex) / open fan from border to border (border vertex); with sorting off vertex_to_corners / vertex_to_vertices "
-                  "are the corner / neighbour sets; boundary/interior edges and vertices partition the ids by 'a side has no face'. "
-                  "With sorting on vertex_to_vertices is proved to be the matching vertex ring (border neighbour first, then the "
-                  "half-edge targets of the corner ring); vertex_to_faces / vertex_to_edges / face_to_corners / face_to_faces / "
-                  "face_to_edges are proved element by element; common_edge, in_face_index, opposite_face with indices, "
-                  "face_to_vertices / edge_to_vertices / other_edge_end have their own spec theorem; the per-case boolean checks "
-                  "(wf_mesh_b, edges_ok_b, corner container = concatenation of the faces) are proved to imply the theorems' "
-                  "hypotheses for the finished object. The model "
-                  "is tied to the code by kernel-evaluated correspondence batches: generated manifold surfaces x random scripts of "
-                  "40-60 public queries on a fresh mesh, every answer compared (rings up to rotation, unordered answers as sets); "
-                  "each surface is built through one of 13 construction routes (bare lists, tuples, numpy rows, from_arrays, "
-                  "save+load in three text formats, RawMeshData(mesh) re-wrap with appended faces, subdivision editor, copy, "
-                  "merge) and the model / oracle are fed the finished object's own face list, edge and corner containers.",
-    "level_note": "Trusted: Coq kernel + vm_compute; the surface.py/linear.py translator (vf/translate/c01.py); the correspondence "
-                  "harness (mesh and script generators, driver canonicalisation: tuples/lists identified, numpy ints/bools cast); "
-                  "CPython dict/set/list semantics (set iteration order is not modelled: such answers are compared as sets / up to "
-                  "rotation); the partially assigned cache state after an exception inside a compute method is not modelled (cannot "
-                  "arise on manifold meshes: theorem C01_compute_total); mesh_data.py's edge / corner completion is modelled "
-                  "(gen_edges, gen_corners) and compared with the implementation's per case, its specification is C02's matter.",
+    "level_text": "PROVED (Coq 8.16, closed under the global context, unbounded: all oriented manifold polygon surfaces, all query "
+                  "scripts incl. clear()/clear_boundary_data(), sorting on/off) about an executable model of "
+                  "PolyLine/SurfaceMesh._Connectivity and the SurfaceMesh border API: query-order independence (every reachable "
+                  "cache state answers every query with its pure answer - which may be an exception value for an id that names no "
+                  "element; a fresh mesh answers what a used one answers); the table computations never raise; next/previous/"
+                  "opposite corner, corner<->half-edge, face on either side of an edge (+local indices), opposite face (+indices), "
+                  "corner of a vertex in a face, first corner of a face, edge and face identifiers equal direct inspection of the "
+                  "face list; sorted vertex_to_corners is a rotational closed ring / open fan from border to border and sorted "
+                  "vertex_to_vertices the matching vertex ring; unsorted: the corner / neighbour sets; vertex_to_faces / "
+                  "vertex_to_edges / face_to_corners / face_to_faces / face_to_edges element by element; common_edge, "
+                  "in_face_index, other_edge_end; border / interior partition of edges and vertices; the per-case boolean checks "
+                  "imply the theorems' hypotheses for the finished object. Statements are for ids >= 0 (Python's wrap-around of "
+                  "negative indices is not modelled). TIE TO THE SOURCE: Gen.v is regenerated from surface.py/linear.py on every "
+                  "run and contains, per accessor and compute method, the lazy guard, assigned/cleared attributes, dictionary keys "
+                  "and stored entries, index formulas, call argument orders, return expressions, branch tests/polarities, the "
+                  "half-edge record layout and slots, the walk steps of the sort, what each border property returns; the "
+                  "statement plumbing around them (vertex_to_faces, face_to_faces, face_to_vertices, edge_to_vertices, "
+                  "corner_to_face, loop skeletons, sort calls) is compared strictly up to local names and fails closed. "
+                  "Model and proofs use these definitions (25 audit mutations: 18 break a proof, 7 fail the translation). "
+                  "TESTED (kernel-evaluated correspondence batches + independent brute-force oracle): the hand-written loops and "
+                  "cache state machine against the implementation on generated manifold surfaces x random scripts of 40-60 "
+                  "public queries on a fresh mesh (incl. ids one past the end: exception classes compared), every answer compared "
+                  "(interior rings up to rotation, unordered answers as sets; the four rings of a vertex also for mutual "
+                  "alignment); each surface is built through one of 13 construction routes (bare lists, tuples, numpy rows, "
+                  "from_arrays, save+load in three text formats, RawMeshData(mesh) re-wrap with appended faces, subdivision "
+                  "editor, copy, merge) and model / oracle are fed the finished object's own face list, edge and corner containers.",
+    "level_note": "Trusted: Coq kernel + vm_compute; the surface.py/linear.py translators (vf/translate/c01.py, c01b.py); the "
+                  "correspondence harness (mesh and script generators, driver canonicalisation: tuples/lists identified, numpy "
+                  "ints/bools cast); CPython dict/set/list semantics (set iteration order is not modelled: such answers are "
+                  "compared as sets / up to rotation); negative ids (Python wrap-around) are neither modelled nor generated; the "
+                  "partially assigned cache state after an exception inside a compute method is not modelled (cannot arise on "
+                  "manifold meshes: theorem C01_compute_total); mesh_data.py's edge / corner completion is modelled (gen_edges, "
+                  "gen_corners; C01_build_mesh_of) but the check feeds the model the finished object's own containers and verifies "
+                  "them per case (edges_ok_b, corner container = concatenation of the faces); a 'faces removed' re-wrap route is "
+                  "not generated (no public removal API).",
 }
 
 HEADER = """From Coq Require Import ZArith List Bool.
@@ -194,12 +201,19 @@ def shrink(case, budget_s=60.0):
     return cur
 
 
-def classify(case, msg):
+def classify(case, msg, res=None):
+    """Failure class: accessor + construction route + what kind of wrong answer (+ whether on a fresh cache)."""
     k, text = msg
+    route = case.get("route", "list")
     if k < 0:
-        return "mesh/" + text.split(" ")[0]
+        return "mesh/route=%s/%s" % (route, "-".join(text.split(" ")[:3]))
     q = case["script"][k][0]
-    return "query/%s" % q
+    o = (res or {}).get("obs", [])
+    kind = "?"
+    if k < len(o):
+        kind = "raises-" + o[k][1] if o[k][0] == "err" else "wrong-" + o[k][0]
+    fresh = "fresh" if all(x[0] in ("clear", "clear_boundary_data") for x in case["script"][:k]) else "after-queries"
+    return "query/%s/route=%s/%s/%s/sort=%s" % (q, route, kind, fresh, case.get("sort"))
 
 
 # ---------------------------------------------------------------------- the check
@@ -327,8 +341,20 @@ def run(ctx):
             m = (-1, "oracle crashed: %r" % ex)
         if m:
             fails.append((idx, m))
+    def fail_key(idx, msg):
+        return classify(dict(cases[idx], script=results[idx].get("script", cases[idx].get("script", [])),
+                             route=results[idx].get("route", cases[idx].get("route"))), msg, results[idx])
+    unknown = [(i, m) for i, m in fails if not ctx.known(fail_key(i, m))]
+    fails = unknown + [(i, m) for i, m in fails if ctx.known(fail_key(i, m))]     # unknown classes are reported first
     ctx.obligation("oracle: every answer of the implementation equals the brute-force recomputation from the face list",
-                   "oracle-on-implementation", True, "%d failing cases" % len(fails))
+                   "oracle-on-implementation", not unknown,
+                   "%d failing cases, %d of them outside the recorded known findings" % (len(fails), len(unknown)))
+    n_crash = sum(1 for r in results if "crash" in r)
+    n_fallback = sum(1 for r in results if r.get("note"))
+    ctx.obligation("harness: every generated case was built, driven and encoded (crashed builds: %d, routes whose output was "
+                   "not manifold and were rebuilt from the bare list: %d of %d)" % (n_crash, n_fallback, len(cases)),
+                   "harness", len(cases) > 0 and n_crash == 0 and n_fallback <= 0.05 * len(cases),
+                   "evaluations=%d" % len(cases))
 
     ctx.log("oracle done: %d failing" % len(fails))
     # 2. kernel-checked correspondence
@@ -350,7 +376,7 @@ def run(ctx):
     t_shrink = _time.time()
     for idx, msg in fails[:50]:
         case = cases[idx]
-        key = classify(dict(case, script=results[idx].get("script", case.get("script", []))), msg)
+        key = fail_key(idx, msg)
         if key in reported or len(reported) >= 3:
             continue
         reported.add(key)
